@@ -16,6 +16,42 @@ NOTE = ["oracle: numpy-free exact recomputation G P Gᵀ + V M Vᵀ from sympy d
 PARTIAL = ["binary64 rounding (1e-9 relative tolerance)"]
 
 
+def same_filter_sequences(ctx):
+    """several predictions on ONE filter object with the same dt and different controls / states (history dependence)"""
+    for i in range(4 if ctx.quick else 30):
+        d = gen.control_coefficient_definition(ctx.rng) if i % 2 == 0 else gen.gen_definition(ctx.rng, n_control=ctx.rng.choice([1, 2]), n_sensors=0, depth=2)
+        process, sensor = eh.make_noises(ctx.rng, d)
+        try:
+            ekf = eh.compile_ekf(d, process, sensor, {s.name: 1.0 for s in d.calibration}, ctx.rng, cse=ctx.rng.random() < 0.5)
+        except Exception as e:
+            ctx.fail(f"compile-ekf-raises:{fk.exc_kind(e)}", f"compile_ekf refuses a valid definition: {e!r}"[:300], {"def": d.describe()})
+            continue
+        Ls, Lc, Lk = eh.names_of(d)
+        um = {s.name: e for s, e in d.state_model.items()}
+        dt = gen.gen_point(ctx.rng, d)["dt"]
+        for step in range(4):
+            pt = gen.gen_point(ctx.rng, d)
+            pt["dt"] = dt
+            pt["cal"] = {s.name: 1 for s in d.calibration}
+            P = eh.spd(ctx.rng, len(Ls))
+            case = {"def": d.describe(), "stream": "same-filter-sequence", "step": step, "point": eh.point_json(pt), "P": eh.mat_json(P),
+                    "noise": {k: str(v) for k, v in process.items()}}
+            ctx.case(case, nontrivial=step >= 1); ctx.count("stream=same-filter-sequence")
+            sub = eh.subs_map(d, pt)
+            G, V = eh.oracle_jac(um, Ls, Ls, sub), eh.oracle_jac(um, Ls, Lc, sub)
+            M = [[process[a] if a == b else 0 for b in Lc] for a in Lc]
+            want_P = eh.madd(eh.mmul(eh.mmul(G, P), eh.mT(G)), eh.mmul(eh.mmul(V, M), eh.mT(V)))
+            try:
+                with fk.quiet():
+                    r = ekf.process_model(float(pt["dt"]), eh.state_obj(ekf, pt), eh.cov_obj(ekf, P), eh.control_obj(ekf, pt))
+            except Exception as e:
+                ctx.fail(f"process-model-raises:{fk.exc_kind(e)}", f"process_model raises {e!r}"[:300], case); break
+            if not eh.mat_close(r.covariance.data, want_P):
+                ctx.fail("predict-cov:history-dependent" if step else "predict-cov:with-control",
+                         f"call {step} on the same filter (same dt, new control): covariance differs from G P G^T + V M V^T", case)
+                break
+
+
 def run(ctx):
     audit = core.lean_audit("C04")
     drv = core.Driver()
@@ -74,6 +110,7 @@ def run(ctx):
             if rational:
                 idx = drv.add({"op": "predict", "ekf": eh.ekf_json(d, process, sensor), "point": eh.point_json(pt), "P": eh.mat_json(P)})
                 pending.append((idx, gx, r1.covariance.data.copy(), case))
+    same_filter_sequences(ctx)
     ans = drv.run()
     for idx, gx, gP, info in pending:
         a = ans[idx]
